@@ -41,7 +41,7 @@ def _(self: "J1939_22", priority: "int", src_address: "int", dest_address: "int"
 def _(self: "J1939_22", src_address: "int", dest_address: "int", session_num: "int", num_segments_that_can_be_sent: "int",
       next_packet: "int", pgn_value: "int"):
     requires(-2**40 <= src_address < 2**40, -2**40 <= dest_address < 2**40, 0 <= session_num < 16, 0 <= pgn_value < 2**24,
-             0 <= num_segments_that_can_be_sent < 256, 0 <= next_packet < 2**24)
+             0 <= num_segments_that_can_be_sent < 256, 0 <= next_packet <= 2**24)
     modifies(trace)
     ensures("C03.fd.cts", len(trace) == old(len(trace)) + 1,
             is_fd_sent(trace[-1], self.__send_message, fd_cm_id(7, dest_address, src_address),
@@ -85,9 +85,10 @@ def _(self: "J1939_22", priority: "int", src_address: "int", session_num: "int",
 # The frame is built in a new list: the segment handed in (the one stored in the session) is not modified (frame condition).
 @unit("j1939.j1939_22:J1939_22.__send_tp_dt", props=["C02"])
 def _(self: "J1939_22", src_address: "int", dest_address: "int", session_num: "int", segment_num: "int", data: "octets", Dtfi: "int"):
-    requires(lut_ok(self), len(data) <= 60, octets(data), -2**40 <= src_address < 2**40, -2**40 <= dest_address < 2**40,
+    requires(lut_ok(self), -2**40 <= src_address < 2**40, -2**40 <= dest_address < 2**40,
              0 <= session_num < 2**16, 0 <= segment_num < 2**24, 0 <= Dtfi < 2**16)
-    let("n", len(data))
+    # (a segment is at most 60 octets - C02.accept.segments; anything beyond would be cut off)
+    let("n", mn(len(data), 60))
     let("payload", old(data))
     modifies(trace)
     ensures("C03.fd.dt", len(trace) == old(len(trace)) + 1,
